@@ -9,6 +9,7 @@ import (
 	"github.com/feichai0017/NoKV/lsm/flush"
 	"github.com/feichai0017/NoKV/manifest"
 	"github.com/feichai0017/NoKV/utils"
+	"github.com/feichai0017/NoKV/utils/verifhook"
 	"github.com/feichai0017/NoKV/vfs"
 	"github.com/feichai0017/NoKV/wal"
 )
@@ -612,6 +613,7 @@ func (lsm *LSM) startFlushWorkers(n int) {
 
 				func() {
 					defer mt.DecrRef()
+					verifhook.Yield("lsm.flush.before")
 					if err := lsm.levels.flush(mt); err != nil {
 						if updateErr := lsm.flushMgr.Update(task.ID, flush.StageRelease, nil, err); updateErr != nil {
 							_ = utils.Err(updateErr)
